@@ -6,7 +6,7 @@
     PARTIAL: the round-trip theorem parse(print c) = abs c is proved here for the stream-selector
     sub-grammar with an unbounded number of matchers; for the rest of the grammar it is established by the
     correspondence against generator-computed expectations, not by a theorem (see DESIGN.md). *)
-From LogQLV Require Import Base.Bytes Base.FloatX Model.Tables Model.Syntax Model.Parser Proofs.ParserP.
+From LogQLV Require Import Base.Bytes Base.FloatX Model.Tables Model.Syntax Model.Parser Proofs.ParserP Proofs.PipelineP.
 
 (** every selector {l1 op1 "v1", ..., ln opn "vn"} with any number of matchers, all four operators, any value bytes (regex
     values that compile) and any label names -- whether the lexer classifies a name as Ident or as a keyword (by, on, json,
@@ -29,6 +29,34 @@ Example selector_keyword_label :
   let ms := [ {| m_label := ["b"%byte; "y"%byte]; m_op := OpEq; m_value := ["v"%byte] |}; {| m_label := ["a"%byte]; m_op := OpRe; m_value := ["x"%byte] |} ] in
   match parse_selector 5 {| prev := []; rest := print_selector anch (fun _ => None) cls ms |} with POk r _ => r = ms | _ => False end.
 Proof. vm_compute. reflexivity. Qed.
+
+(** pipelines over the stage fragment {line filters with a string or ip(), pattern, line_format, unpack, decolorize, drop / keep
+    with label names, distinct}: any number of stages in any order is parsed into exactly those stages in order, consuming
+    exactly their tokens.  [chain_ok] asks each stage to be well-formed (regex filters compile, name lists non-empty) and to be
+    followed by something it cannot absorb: a drop / keep list must not be followed by `!=` / `!~` (the grammar reads
+    `| drop a != "x"` as a drop matcher), and the pipeline ends at a token that starts neither a filter nor a stage. *)
+Theorem parse_print_pipeline_partial :
+  forall (anch : bytes -> bool) (re_names : bytes -> option (list bytes)) (sts : list stage) (fuel : nat) (au : bool) (acc : list stage) (p r : list token),
+  chain_ok anch re_names sts r -> (fuel_needed sts < fuel)%nat ->
+  parse_pipeline fuel au acc {| prev := p; rest := print_stages anch re_names sts ++ r |} =
+    POk (acc ++ sts) {| prev := rev (print_stages anch re_names sts) ++ p; rest := r |}.
+Proof. exact pipeline_print_lemma. Qed.
+Print Assumptions parse_print_pipeline_partial.
+
+Example pipeline_roundtrip_example :
+  let anch := fun _ : bytes => true in
+  let rn := fun _ : bytes => Some (@nil bytes) in
+  let sts := [SLine OpRe ["x"%byte] false; SDrop [["a"%byte]; ["b"%byte]] []; SLine OpEq ["1"%byte] true; SDistinct [["c"%byte]]; SUnpack; SLine OpNotEq ["y"%byte] false] in
+  chain_ok anch rn sts [] /\
+  match parse_pipeline 20 false [] {| prev := []; rest := print_stages anch rn sts |} with POk r _ => r = sts | _ => False end.
+Proof.
+  split; [|vm_compute; reflexivity].
+  cbn. unfold follows_ok, no_comma. cbn. repeat match goal with
+       | |- _ /\ _ => split
+       | |- forall _, _ => intro
+       | H : _ :: _ = _ :: _ |- _ => injection H as <- <-
+       end; try reflexivity; try discriminate; try (left; reflexivity); exact I.
+Qed.
 
 (** static rules *)
 Theorem rule_parameter_only_for_quantile : forall op p g u,
